@@ -24,7 +24,20 @@ type RTCase struct {
 	Tree    sg.Node `json:"tree"`
 	Script  []bool  `json:"script"`
 	Callers int     `json:"callers"`
+	// TestSeqUnlimited only.
+	// Implicit: nobody calls Start, the first Next starts the tree (what the engine does with every schedule); the
+	// start instant is inferred from the first token (needs a finite first token-bearing part, otherwise the case runs
+	// with an explicit Start) and must lie inside that call.
+	Implicit bool `json:"implicit_start,omitempty"`
+	// Idle[n]: when the caller has drawn the last token in front of the n-th unknown-length part it reaches, it stops
+	// drawing (an instance whose gun is busy), waits until the clock has passed the finish of that part (and of the
+	// unknown-length parts right behind it) and only polls Left().
+	Idle []bool `json:"idle_before_unlimited,omitempty"`
 }
+
+// leftGuard is the clock guard band of the Left() oracle: a call that began later than this after the finish of the
+// last unknown-length part must give the exact count.
+const leftGuard = time.Millisecond
 
 var rtOpts = sg.Opts{MaxDepth: 2, MaxChildren: 4, MaxLeafTok: 4, Unlimited: true, MinDur: time.Millisecond, MaxDur: 4 * time.Millisecond}
 
@@ -61,6 +74,66 @@ func genRT(callersMax int) func(t *rapid.T) RTCase {
 	}
 }
 
+// genCompositePart draws a part that pandora builds as a composite schedule of its own and that holds tokens: a nested
+// profile of 2-3 elementary parts, an instance_step with at least one step, or a step profile with from != to.
+func genCompositePart(t *rapid.T) sg.Node {
+	ms := func(label string) int64 { return int64(rapid.IntRange(1, 4).Draw(t, label)) * int64(time.Millisecond) }
+	switch rapid.SampledFrom([]string{"nested", "nested", "istep", "istep", "step"}).Draw(t, "firstKind") {
+	case "nested":
+		flat := rtOpts
+		flat.Unlimited, flat.Flat = false, true
+		n := sg.Node{Kind: "composite"}
+		for i, cnt := 0, rapid.IntRange(2, 3).Draw(t, "nestedParts"); i < cnt; i++ {
+			n.Children = append(n.Children, sg.GenLeaf(t, flat))
+		}
+		return n
+	case "istep":
+		from := int64(rapid.IntRange(0, 3).Draw(t, "from"))
+		step := int64(rapid.IntRange(1, 3).Draw(t, "step"))
+		cnt := int64(rapid.IntRange(1, 3).Draw(t, "cnt"))
+		return sg.Node{Kind: "istep", From: float64(from), To: float64(from + cnt*step), Step: step, DurNs: ms("dur")}
+	default:
+		// levels of 1-3 tokens each: rates in multiples of 500/s over 2 ms
+		from := int64(rapid.IntRange(0, 1).Draw(t, "from")) * 500
+		levels := int64(rapid.IntRange(1, 2).Draw(t, "levels"))
+		return sg.Node{Kind: "step", From: float64(from) + 125, To: float64(from+levels*500) + 125, Step: 500, DurNs: 2 * int64(time.Millisecond)}
+	}
+}
+
+// genRTSeq: genRT(1) plus the start mode and the idle plan; every second tree gets a composite-built part in front
+// (nested profile / instance_step / step: the shape of a startup profile followed by an unlimited phase).
+func genRTSeq(t *rapid.T) RTCase {
+	c := genRT(1)(t)
+	c.Implicit = rapid.Bool().Draw(t, "implicit")
+	c.Idle = rapid.SliceOfN(rapid.Bool(), 0, 6).Draw(t, "idle")
+	if rapid.Bool().Draw(t, "compositeFirst") {
+		c.Tree.Children = append([]sg.Node{genCompositePart(t)}, c.Tree.Children...)
+	}
+	return c
+}
+
+// built normalises a node to what pandora's constructors return: NewComposite of one part is that part, of none once(0).
+func built(n sg.Node) sg.Node {
+	for n.Kind == "composite" && len(n.Children) == 1 {
+		n = n.Children[0]
+	}
+	return n
+}
+
+// builtComposite: the node is built as a composite schedule of its own.
+func builtComposite(n sg.Node) bool {
+	n = built(n)
+	switch n.Kind {
+	case "composite":
+		return len(n.Children) >= 2
+	case "step":
+		return n.From != n.To
+	case "istep":
+		return int64(n.From)+n.Step <= int64(n.To)
+	}
+	return false
+}
+
 func waitUntil(tx time.Time) {
 	for {
 		d := time.Until(tx)
@@ -77,11 +150,47 @@ func checkRTSeq(c RTCase, o *vf.Obs) error {
 	if l := s.Left(); l >= 0 {
 		return fmt.Errorf("Left()=%d before start although the tree holds an unlimited part (total unknown)", l)
 	}
-	start := time.Now()
-	s.Start(start)
-	parts, finish, _, err := sg.Chain(leaves, start)
+	// shape of the chain (independent of the start instant)
+	ref, _, _, err := sg.Chain(leaves, time.Unix(1_000_000, 0))
 	if err != nil {
 		return err
+	}
+	unknownNotFirst := false
+	firstTokenLeaf := -1
+	for i, p := range ref {
+		if firstTokenLeaf < 0 && (p.Leaf.Unknown() || len(p.Tokens) > 0) {
+			firstTokenLeaf = i
+		}
+		if p.Leaf.Unknown() && firstTokenLeaf >= 0 && i > firstTokenLeaf {
+			unknownNotFirst = true
+		}
+	}
+	// Implicit start: the start instant is the first token minus its offset in the chain; that needs a finite part
+	// to hand out the first token (an unlimited part answers "now").
+	implicit := c.Implicit && firstTokenLeaf >= 0 && !ref[firstTokenLeaf].Leaf.Unknown()
+	var firstOff time.Duration
+	if implicit {
+		firstOff = ref[firstTokenLeaf].Tokens[0].Sub(ref[0].Start)
+	}
+	// first part of the outer schedule built as a composite of its own (nested profile, instance_step, step)?
+	firstComposite, firstLeaves := false, 0
+	if outer := built(c.Tree); outer.Kind == "composite" && len(outer.Children) >= 2 {
+		firstComposite = builtComposite(outer.Children[0])
+		firstLeaves = len(sg.Flatten(outer.Children[0]))
+	}
+	var (
+		start   time.Time
+		parts   []sg.Part
+		finish  time.Time
+		started bool // Start was called or a first Next has returned
+	)
+	if !implicit {
+		start = time.Now()
+		s.Start(start)
+		if parts, finish, _, err = sg.Chain(leaves, start); err != nil {
+			return err
+		}
+		started = true
 	}
 	remaining := func(j, k int) int {
 		r := 0
@@ -98,48 +207,106 @@ func checkRTSeq(c RTCase, o *vf.Obs) error {
 		return r
 	}
 	j, k := 0, 0 // model position: leaf j, token k inside it
-	unknownNotFirst := false
-	firstTokenLeaf := -1
-	for i, p := range parts {
-		if firstTokenLeaf < 0 && (p.Leaf.Unknown() || len(p.Tokens) > 0) {
-			firstTokenLeaf = i
-		}
-		if p.Leaf.Unknown() && firstTokenLeaf >= 0 && i > firstTokenLeaf {
-			unknownNotFirst = true
-		}
-	}
 	var prev time.Time
-	uTokens, fTokens, leftNeg, leftExact := 0, 0, 0, 0
-	checkLeft := func() error {
+	uTokens, fTokens, leftNeg, leftExact, leftStrict := 0, 0, 0, 0, 0
+	maxLeafDrawn := -1 // highest leaf a token has been drawn from
+	// checkLeft judges one Left() call; strict reports that the answer had to be exact although unknown-length parts
+	// were still ahead of the model position (all of them over on the clock, no token left in front of them).
+	checkLeft := func() (strict bool, err error) {
 		a := time.Now()
 		l := s.Left()
 		b := time.Now()
-		mustNeg, anyU := false, false
+		mustNeg, lastU := false, -1
 		for i := j; i < len(parts); i++ {
 			if parts[i].Leaf.Unknown() {
-				anyU = true
+				lastU = i
 				if b.Before(parts[i].Finish) {
 					mustNeg = true
 				}
 			}
 		}
-		_ = a
+		anyU := lastU >= 0
 		R := remaining(j, k)
+		// Tokens still to be drawn in front of the last unknown-length part: while there are any, that part has not been
+		// started and Left() may stay negative although its window has passed on the clock (spec assumption).
+		inFront := 0
+		for i := j; i < lastU; i++ {
+			if !parts[i].Leaf.Unknown() {
+				inFront += len(parts[i].Tokens)
+				if i == j {
+					inFront -= k
+				}
+			}
+		}
+		mustExact := anyU && !mustNeg && inFront == 0 && !a.Before(parts[lastU].Finish.Add(leftGuard))
 		switch {
 		case !anyU:
 			if l != R {
-				return fmt.Errorf("Left()=%d with no unknown-length part left; exactly %d tokens remain", l, R)
+				return false, fmt.Errorf("Left()=%d with no unknown-length part left; exactly %d tokens remain", l, R)
 			}
 			leftExact++
 		case mustNeg:
 			if l >= 0 {
-				return fmt.Errorf("Left()=%d while an unlimited part (finishing at start+%v) has not finished yet: the total is unknown, must be negative (exactly %d finite tokens remain)",
+				return false, fmt.Errorf("Left()=%d while an unlimited part (finishing at start+%v) has not finished yet: the total is unknown, must be negative (exactly %d finite tokens remain)",
 					l, firstUnfinished(parts, j, b).Sub(start), R)
 			}
 			leftNeg++
+		case mustExact:
+			if l != R {
+				how := "started explicitly"
+				if implicit {
+					how = "started by its first Next"
+				}
+				return true, fmt.Errorf("Left()=%d, asked %v after the last unlimited part finished (start+%v) with every token in front of it drawn (%d Next calls so far, schedule %s): nothing unknown is left, exactly %d tokens remain - Left is negative only while an unlimited part has not finished yet",
+					l, a.Sub(parts[lastU].Finish), parts[lastU].Finish.Sub(start), fTokens+uTokens, how, R)
+			}
+			leftStrict++
+			return true, nil
 		default:
 			if l >= 0 && l != R {
-				return fmt.Errorf("Left()=%d is non-negative but not exact: %d finite tokens remain", l, R)
+				return false, fmt.Errorf("Left()=%d is non-negative but not exact: %d finite tokens remain", l, R)
+			}
+		}
+		return false, nil
+	}
+	idleIdx, lastIdleU := 0, -1
+	idleWaits, idleStrict, idleStrictFirstComposite := 0, 0, 0
+	// idle: the next token would come from an unknown-length part the caller has not reached before; if the plan says so,
+	// stop drawing, let that part (and the unknown-length parts chained right behind it) run out on the clock, poll Left().
+	idle := func() error {
+		i := j
+		for i < len(parts) && !parts[i].Leaf.Unknown() && ((i == j && k >= len(parts[i].Tokens)) || (i != j && len(parts[i].Tokens) == 0)) {
+			i++
+		}
+		if i >= len(parts) || !parts[i].Leaf.Unknown() || i <= lastIdleU {
+			return nil
+		}
+		lastIdleU = i
+		plan := idleIdx < len(c.Idle) && c.Idle[idleIdx]
+		idleIdx++
+		if !plan {
+			return nil
+		}
+		lu := i
+		for m := i + 1; m < len(parts); m++ {
+			if parts[m].Leaf.Unknown() {
+				lu = m
+			} else if len(parts[m].Tokens) > 0 {
+				break
+			}
+		}
+		waitUntil(parts[lu].Finish.Add(leftGuard + 200*time.Microsecond))
+		idleWaits++
+		for n := 0; n < 3; n++ {
+			strict, err := checkLeft()
+			if err != nil {
+				return fmt.Errorf("after staying idle in front of unlimited part %d until start+%v, Left poll %d: %w", i, parts[lu].Finish.Sub(start), n, err)
+			}
+			if strict {
+				idleStrict++
+				if implicit && firstComposite && maxLeafDrawn >= 0 && maxLeafDrawn < firstLeaves {
+					idleStrictFirstComposite++
+				}
 			}
 		}
 		return nil
@@ -147,8 +314,17 @@ func checkRTSeq(c RTCase, o *vf.Obs) error {
 	step := 0
 	fails := 0
 	for iter := 0; iter < 100000; iter++ {
+		if started {
+			if err := idle(); err != nil {
+				return err
+			}
+		}
 		if step < len(c.Script) && c.Script[step] {
-			if err := checkLeft(); err != nil {
+			if !started {
+				if l := s.Left(); l >= 0 {
+					return fmt.Errorf("Left()=%d on a schedule nobody has started (no Start, no Next yet) although the tree holds an unlimited part (total unknown)", l)
+				}
+			} else if _, err := checkLeft(); err != nil {
 				return err
 			}
 		}
@@ -156,6 +332,21 @@ func checkRTSeq(c RTCase, o *vf.Obs) error {
 		a := time.Now()
 		tx, ok := s.Next()
 		b := time.Now()
+		if !started {
+			// implicit start: this call started the tree at an instant of its own choice inside [a, b]
+			if !ok {
+				return fmt.Errorf("first Next of the unstarted schedule reported exhaustion, part %d holds %d tokens", firstTokenLeaf, len(ref[firstTokenLeaf].Tokens))
+			}
+			start = tx.Add(-firstOff)
+			if start.Before(a) || start.After(b) {
+				return fmt.Errorf("first token %v lies %v after the profile's start by manual chaining, so the schedule started at %v: outside the first Next call [%v, %v] that started it",
+					tx.Format(time.RFC3339Nano), firstOff, start.Format(time.RFC3339Nano), a.Format(time.RFC3339Nano), b.Format(time.RFC3339Nano))
+			}
+			if parts, finish, _, err = sg.Chain(leaves, start); err != nil {
+				return err
+			}
+			started = true
+		}
 		// advance the model
 		matched := false
 		for !matched {
@@ -181,6 +372,7 @@ func checkRTSeq(c RTCase, o *vf.Obs) error {
 					}
 					k++
 					fTokens++
+					maxLeafDrawn = j
 					matched = true
 					break
 				}
@@ -201,6 +393,7 @@ func checkRTSeq(c RTCase, o *vf.Obs) error {
 						j, p.Start.Sub(start), tx.Sub(start), a.Sub(start), b.Sub(start))
 				}
 				uTokens++
+				maxLeafDrawn = j
 				matched = true
 				break
 			}
@@ -214,6 +407,7 @@ func checkRTSeq(c RTCase, o *vf.Obs) error {
 					return fmt.Errorf("unlimited part %d handed out a token at start+%v, before its start (start+%v)", j, tx.Sub(start), p.Start.Sub(start))
 				}
 				uTokens++
+				maxLeafDrawn = j
 				matched = true
 				break
 			}
@@ -236,6 +430,14 @@ func checkRTSeq(c RTCase, o *vf.Obs) error {
 	o.ClassIf(leftNeg > 0, "left_negative_seen")
 	o.ClassIf(leftExact > 0, "left_exact_after_unknown")
 	o.ClassIf(uTokens > 0, "unlimited_tokens_drawn")
+	o.ClassIf(implicit, "implicit_start")
+	o.ClassIf(c.Implicit && !implicit, "implicit_start_not_inferable_ran_explicit")
+	o.ClassIf(firstComposite, "composite_first_part")
+	o.ClassIf(idleWaits > 0, "idle_before_unlimited")
+	o.ClassIf(leftStrict > 0, "left_exact_demanded_behind_finished_unlimited")
+	o.ClassIf(idleStrict > 0, "idle_left_exact_demanded")
+	o.ClassIf(idleStrict > 0 && implicit, "idle_left_exact_demanded_implicit_start")
+	o.ClassIf(idleStrictFirstComposite > 0, "idle_left_exact_demanded_behind_composite_first_part_implicit_start")
 	tokenLeaves := 0
 	for _, p := range parts {
 		if p.Leaf.Unknown() || len(p.Tokens) > 0 {
@@ -245,7 +447,7 @@ func checkRTSeq(c RTCase, o *vf.Obs) error {
 	if tokenLeaves >= 2 && unknownNotFirst {
 		o.NonTrivial()
 	}
-	o.Key(map[string]any{"tree": c.Tree, "script": c.Script})
+	o.Key(map[string]any{"tree": c.Tree, "script": c.Script, "implicit": c.Implicit, "idle": c.Idle})
 	o.Note("finite_tokens", fTokens)
 	o.Note("unlimited_tokens", uTokens)
 	return nil
@@ -275,7 +477,7 @@ func firstUnfinished(parts []sg.Part, j int, b time.Time) time.Time {
 
 func TestSeqUnlimited(t *testing.T) {
 	r := vf.Start(t, "C02")
-	vf.Check(r, genRT(1), checkRTSeq)
+	vf.Check(r, genRTSeq, checkRTSeq)
 }
 
 // ---------- real time, concurrent ----------
